@@ -4,6 +4,7 @@ package c12
 import (
 	"errors"
 	"fmt"
+	"github.com/ajitpratap0/GoSQLX/pkg/sql/ast"
 	"github.com/ajitpratap0/GoSQLX/pkg/sql/tokenizer"
 	"os"
 	"path/filepath"
@@ -227,6 +228,11 @@ errs:
 	}
 }
 
+func tokensOnly(sql string) ([]models.TokenWithSpan, error) {
+	_, toks, err := tokensOf(sql)
+	return toks, err
+}
+
 func tokensOf(sql string) (*tokenizer.Tokenizer, []models.TokenWithSpan, error) {
 	tk := tokenizer.GetTokenizer()
 	defer tokenizer.PutTokenizer(tk)
@@ -291,7 +297,7 @@ func Check() *common.Check {
 		Level:     "exploration",
 		CrashSafe: true,
 		Rule: "scripts S1;...;Sn: all sequences of n<=2 over the full pool (9 valid statements - one per kind plus DESCRIBE / SHOW / REPLACE, which do not start with a recovery synchronisation keyword - and every failing corruption of them: first / second / last token deleted, middle token duplicated or replaced, truncated after 2, 3, 4 tokens and at half, none containing a statement-starting keyword after its first token), n<=3 over the valid statements and an even spread of 14 corruptions " +
-			"and n<=5 (quick) / n<=6 (thorough) over 2 valid + 3 corrupt, each with and without a trailing semicolon; every rejected proper prefix (up to the first inner statement-starting keyword) of every clause-option, DML and DDL statement of the sqlgen space, followed by SHOW TABLES / a SELECT / a malformed non-keyword segment, and between two neighbours; every proper prefix of those statements followed by a statement exactly at the nesting limit (which must be returned); every byte prefix (quick: 600 bytes) of every corpus file under /repo/testdata for termination and the iff clause; every single-token deletion / duplication / replacement inside every representative expression of sqlgen (in WHERE and in the select list) before a follower and between two neighbours; plus all lexeme sequences of length <=3 (quick) / <=4 (thorough) over a 24-lexeme alphabet for termination and the iff clause. " +
+			"and n<=5 (quick) / n<=6 (thorough) over 2 valid + 3 corrupt, each with and without a trailing semicolon; every rejected proper prefix (up to the first inner statement-starting keyword) of every clause-option, DML and DDL statement of the sqlgen space, followed by SHOW TABLES / a SELECT / a malformed non-keyword segment, and between two neighbours; every proper prefix of those statements followed by a statement exactly at the nesting limit (which must be returned); all scripts of <=3 segments over 6 MySQL-only / portable / malformed statements through the recovery method of a parser built with the mysql dialect, once and twice; every byte prefix (quick: 600 bytes) of every corpus file under /repo/testdata for termination and the iff clause; every single-token deletion / duplication / replacement inside every representative expression of sqlgen (in WHERE and in the select list) before a follower and between two neighbours; plus all lexeme sequences of length <=3 (quick) / <=4 (thorough) over a 24-lexeme alphabet for termination and the iff clause. " +
 			"distinct = distinct script text; non-trivial = script mixes well-formed and malformed segments",
 		Assume: []string{"a segment is well-formed iff gosqlx.Parse accepts it alone", "parser-token count of a segment = number of generator lexemes; verified at run time on the accepted statement each segment was cut from, and where it does not hold (keyword pairs the tokenizer merges) the token-index clause is replaced by the reported-column clause alone"},
 		Enumerate: func(e *common.Enum) {
@@ -510,6 +516,90 @@ func Check() *common.Check {
 						}
 					})
 				}
+			}
+			// a configured parser: recovery through the instance methods must parse with the dialect and mode the holder set.
+			// All scripts of <=3 segments over MySQL-only, portable and malformed statements on a parser built WithDialect("mysql").
+			{
+				type dseg struct {
+					sql string
+					ok  bool
+					tr  string
+				}
+				strictMy := func(sql string) ([]ast.Statement, error) {
+					toks, err := tokensOnly(sql)
+					if err != nil {
+						return nil, err
+					}
+					p := parser.NewParser(parser.WithDialect("mysql"))
+					defer p.Release()
+					t, err := p.ParseFromModelTokens(toks)
+					if err != nil {
+						return nil, err
+					}
+					return t.Statements, nil
+				}
+				var dpool []dseg
+				for _, q := range []string{"SELECT a FROM t LIMIT 5, 10", "SELECT b FROM u LIMIT 3", "SELECT c FROM v WHERE c = 1 LIMIT 1, 2", "SELECT FROM WHERE", "UPDATE t SET", "SHOW TABLES"} {
+					d := dseg{sql: q}
+					if st, err := strictMy(q); err == nil {
+						d.ok, d.tr = true, sqlgen.DumpNorm(st)
+					}
+					dpool = append(dpool, d)
+				}
+				var drec func(prefix []int)
+				drec = func(prefix []int) {
+					if len(prefix) > 0 {
+						pp := append([]int{}, prefix...)
+						e.Do(fmt.Sprintf("dialect|mysql|%v", pp), func(c *common.Ctx) {
+							var parts []string
+							want, nbad := "", 0
+							for _, i := range pp {
+								parts = append(parts, dpool[i].sql)
+								if dpool[i].ok {
+									want += dpool[i].tr
+								} else {
+									nbad++
+								}
+							}
+							script := strings.Join(parts, " ; ")
+							c.Input("mysql parser: " + script)
+							toks, err := tokensOnly(script)
+							if err != nil {
+								return
+							}
+							for _, via := range []string{"ParseWithRecoveryFromModelTokens", "second call on the same parser"} {
+								p := parser.NewParser(parser.WithDialect("mysql"))
+								if via != "ParseWithRecoveryFromModelTokens" {
+									p.ParseWithRecoveryFromModelTokens(toks)
+								}
+								stmts, errs := p.ParseWithRecoveryFromModelTokens(toks)
+								got := ""
+								for _, st := range stmts {
+									got += sqlgen.DumpNorm([]any{st})
+								}
+								flat := func(s string) string { return strings.ReplaceAll(strings.ReplaceAll(s, "][", ", "), "], [", ", ") }
+								if flat(got) != flat(want) || len(errs) != nbad {
+									c.Fail("configured-parser:mysql:recovery-differs", fmt.Sprintf("%s on a mysql parser: %d errors (want %d)\n want %s\n got  %s", via, len(errs), nbad, common.Trim(flat(want), 300), common.Trim(flat(got), 300)))
+								}
+								if p.Dialect() != "mysql" {
+									c.Fail("configured-parser:mysql:dialect-lost", "after recovery parsing the parser reports dialect "+p.Dialect())
+								}
+								p.Release()
+							}
+							c.Outcome("dialect-script")
+							if nbad > 0 && nbad < len(pp) {
+								c.NonTrivial()
+							}
+						})
+					}
+					if len(prefix) == 3 {
+						return
+					}
+					for i := range dpool {
+						drec(append(append([]int{}, prefix...), i))
+					}
+				}
+				drec(nil)
 			}
 			// token soup: termination and the iff clause
 			alpha := []string{"SELECT", "FROM", "WHERE", "INSERT", "INTO", "VALUES", "UPDATE", "SET", "DELETE", "WITH", "AS", "(", ")", ",", ";", "*", "=", "a", "1", "'s'", "AND", "NOT", "JOIN", "CASE"}
